@@ -5,14 +5,18 @@ from .. import tabulate
 
 EXPLANATION = (
     "Static decision that the escape function and the parser agree on what a meta-character is: M = the characters "
-    "is_meta_character accepts (evaluated on every ASCII character and on an unknown other character), E = the literal "
-    "parser's escape alternatives value(x, tag(y)) (x = y required), S = its is_not stop set, read from the resolved nom "
-    "calls in the THIR of the parser (not from text): E = M, S = M + {'/', '\\\\'}, the escape character of both sides is "
-    "'\\\\'; for classes, the none_of set = escapable + {'\\\\'} and the contextual meta-characters are escapable.  "
-    "`escape` is evaluated on strings covering every meta-character: it emits '\\\\' before exactly the members of M and "
-    "returns other input unchanged.  That the escaped text builds and is invariant follows from C01/C06/C11 and is not "
-    "decided here.")
-RULES = "C18.sets (TABLE), C18.escape (EFFECT)"
+    "is_meta_character accepts (evaluated on every ASCII character, on non-ASCII characters whose low byte is an ASCII "
+    "code, and on an unknown other character); the parser function is evaluated from its THIR with the nom combinators "
+    "modelled (sa/nommodel.py) on probe texts for every printable ASCII character and some non-ASCII ones: S = the "
+    "characters that end a literal when unescaped, E = the characters x for which `\\\\x` is read as the literal x: "
+    "M within E (what escape emits is read back), S within M + {'/', '\\\\'} (every character the parser treats as a "
+    "meta-character is reported), M within S; for classes, every character can be a member as written or escaped and "
+    "the contextual meta-characters are escapable.  `escape` is evaluated on strings covering every meta-character: it "
+    "emits '\\\\' before exactly the members of M and returns other input unchanged; (roundtrip) for ~300 strings "
+    "(every ASCII character, every pair of meta-characters, path-like, pattern-like and non-ASCII texts) the parser reads "
+    "escape(s) as literals and separators spelling s.  That the escaped text passes the rule checker and is invariant "
+    "follows from C06/C11 and is not decided here.")
+RULES = "C18.sets (TABLE), C18.escape (EFFECT), C18.roundtrip (TABLE: parser evaluated on escaped strings)"
 
 
 def literal_of(th, eid):
@@ -62,10 +66,11 @@ def run(ctx):
     F = ctx.facts()
     R = ctx.report
     R.assume("nom combinators behave as documented (is_not stops at the listed characters, escaped_transform replaces `\\\\x` by the value of the matching alternative)")
-    R.undecided("that the escaped text builds and is invariant (C01/C06/C11 + the rest of the grammar)")
+    R.undecided("that the escaped text passes the rule checker and is invariant (C06/C11); decided: it parses into literals and separators spelling the string (C18.roundtrip)")
     M = rule_meta(F, R)
     rule_sets(F, R, M)
     rule_escape(F, R, M)
+    rule_roundtrip(F, R, M)
 
 
 def rule_meta(F, R):
@@ -99,55 +104,72 @@ def parser_fn(F, name):
 
 
 def rule_sets(F, R, M):
-    lit = parser_fn(F, "literal")
-    pairs = value_tag_pairs(F, lit)
-    R.floor("C18.sets", "escape alternatives in the literal parser", len(pairs), 1)
-    E = set()
-    for x, y, ln in pairs:
-        R.check(x is not None and x == y, "C18.sets", "value(%r, tag(%r))" % (x, y), "an escape yields the character that was escaped", "%s:%s" % (lit.where().split(":")[0], ln),
-                fail_msg="the escape alternative value(%r, tag(%r)) maps an escaped character to a different one" % (x, y))
-        if x is not None:
-            E.add(x)
-    R.check(E == M, "C18.sets", "E = M", "escapable characters of the literal parser = meta-characters", lit.where(),
-            fail_msg="the literal parser can unescape %s but is_meta_character accepts %s: only in parser %s, only in "
-                     "is_meta_character %s (escape() would emit an escape the parser rejects, or leave a meta-character "
-                     "unescaped)" % (sorted(E), sorted(M), sorted(E - M), sorted(M - E)))
-    stops = calls_in(F, lit, "nom::bytes::complete::is_not")
-    R.floor("C18.sets", "is_not in the literal parser", len(stops), 1)
-    for it, e, lits, _raws in stops:
-        S = set(lits[0] or "")
-        want = M | {"/", "\\"}
-        R.check(S == want, "C18.sets", "S = M + {/,\\}", "literal text stops exactly at meta-characters, separators and the escape character",
-                "%s:%s" % (lit.where().split(":")[0], e["ln"]),
-                fail_msg="the literal parser's stop set is %s, expected %s: missing %s, extra %s (a meta-character that does not "
-                         "stop a literal is taken literally unescaped; an extra one cannot be written at all)" % (
-                             "".join(sorted(S)), "".join(sorted(want)), sorted(want - S), sorted(S - want)))
-    et = calls_in(F, lit, "nom::bytes::complete::escaped_transform")
-    R.floor("C18.sets", "escaped_transform in the literal parser", len(et), 1)
-    for it, e, lits, _raws in et:
-        R.check(lits[1] == "\\", "C18.sets", "parser escape character", "`\\`", lit.where(),
-                fail_msg="the literal parser's escape character is %r" % (lits[1],))
-    # classes
-    cls = parser_fn(F, "class")
-    none_of = calls_in(F, cls, "nom::character::complete::none_of")
-    cpairs = value_tag_pairs(F, cls)
-    R.floor("C18.sets", "class escape alternatives", len(cpairs), 1)
-    R.floor("C18.sets", "none_of in the class parser", len(none_of), 1)
-    esc = set()
-    for x, y, ln in cpairs:
-        R.check(x is not None and y == "\\" + x, "C18.sets", "class value(%r, tag(%r))" % (x, y), "`\\x` yields x", cls.where(),
-                fail_msg="the class escape alternative value(%r, tag(%r)) is inconsistent" % (x, y))
-        if x is not None:
-            esc.add(x)
-    for it, e, lits, _raws in none_of:
-        N = set(lits[0] or "")
-        R.check(N == esc | {"\\"}, "C18.sets", "class none_of", "plain class members exclude exactly the escapable characters and `\\`", cls.where(),
-                fail_msg="none_of(%r) but the escapable class characters are %s" % (lits[0], sorted(esc)))
+    """C18.sets: which characters the parser treats as meta-characters, decided on the parser itself (its THIR with the
+    nom combinators modelled, sa/nommodel.py) and therefore independent of how the sets are spelled: S = characters that
+    end a literal when written unescaped (`a<c>b` is not read as the one literal), E = characters x for which `\\x` is
+    read as the literal x; for classes the characters that can be members as written and escaped."""
+    from . import parsecat
+    it = F.find("token::parse::parse", optional=True)
+    if it is None:
+        R.anchor_missing("C18.sets", "token::parse::parse")
+        return
+    err_item = None
+    for cand in F.items.values():
+        if cand.qname.startswith("token::parse::ParseError") and cand.name == "new":
+            err_item = cand
+    where = it.where()
+    probes = [chr(c) for c in range(0x20, 0x7f)] + ["\u00e9", "\u015b", "\u017b", "\u012a", "\u672c", "\u611b", "\U0001f600"]
+
+    def reads(text):
+        ev = parsecat.evaluate(F, it, err_item, text)
+        if ev["outcome"] == "unanalysable":
+            R.fail("C18.sets", "parse(%r)" % text, "the parser could not be evaluated on %r: %s" % (text, ev["why"]), where)
+            return None
+        return ev["tree"][1] if ev["outcome"] == "ok" else False
+    S, E, wrong = set(), set(), []
+    plain, escapable = set(), set()
+    for c in probes:
+        t = reads("a" + c + "b")
+        if t is None:
+            continue
+        if not (t and len(t) == 1 and t[0][0] == "lit" and t[0][1] == "a" + c + "b"):
+            S.add(c)
+        t = reads("\\" + c)
+        if t and len(t) == 1 and t[0][0] == "lit":
+            if t[0][1] == c:
+                E.add(c)
+            else:
+                wrong.append((c, t[0][1]))
+        t = reads("[a" + c + "]")
+        if t and len(t) == 1 and t[0][0] == "class" and t[0][2] == [["c", "a"], ["c", c]]:
+            plain.add(c)
+        t = reads("[\\" + c + "]")
+        if t and len(t) == 1 and t[0][0] == "class" and t[0][2] == [["c", c]]:
+            escapable.add(c)
+    R.floor("C18.sets", "characters probed through the parser", len(probes), 100)
+    R.check(not wrong, "C18.sets", "escape yields the escaped character", "`\\x` is read as x", where,
+            fail_msg="an escape is read as a different character: %s" % (wrong[:5],))
+    R.check(M <= E, "C18.sets", "M within E", "every meta-character can be written escaped in a literal", where,
+            fail_msg="is_meta_character accepts %s but the literal parser does not read `\\x` as x for %s: escape() emits an "
+                     "escape the parser rejects" % (sorted(M), sorted(M - E)))
+    want = M | {"/", "\\"}
+    R.check(S <= want, "C18.sets", "S within M + {/,\\}", "every character that ends a literal is a meta-character, the separator or the escape character", where,
+            fail_msg="the parser treats %s as pattern meta-characters (they end a literal when unescaped) but is_meta_character "
+                     "does not report them: escape() leaves them unescaped" % sorted(S - want))
+    R.check(M <= S, "C18.sets", "M within S", "meta-characters are not literal text when unescaped", where,
+            fail_msg="is_meta_character reports %s but the parser reads them as literal text when unescaped" % sorted(M - S))
+    R.note("parser: S = %s, E = %s; classes: written as is %d characters, escapable %s" % ("".join(sorted(S)), "".join(sorted(E)), len(plain), "".join(sorted(escapable))))
+    every = [c for c in probes if c not in plain and c not in escapable and c != "\\"]
+    R.check(not every, "C18.sets", "class members", "every character but `\\` can be a class member, as written or escaped", where,
+            fail_msg="the characters %s can neither be written in a class as they are nor escaped" % every)
     ctxm = F.find("is_contextual_meta_character")
     I = Interp(F)
     C = set(chr(c) for c in range(128) if tabulate.single(I.explore(lambda c=c: I.call_item(ctxm, [Char(chr(c))]))) is True)
-    R.check(C <= esc and C, "C18.sets", "contextual meta-characters", "contextual meta-characters %s are escapable inside classes" % sorted(C), ctxm.where(),
-            fail_msg="contextual meta-characters %s are not all escapable in classes (%s)" % (sorted(C), sorted(esc)))
+    R.check(C <= escapable and C, "C18.sets", "contextual meta-characters", "contextual meta-characters %s are escapable inside classes" % sorted(C), ctxm.where(),
+            fail_msg="contextual meta-characters %s are not all escapable in classes (%s)" % (sorted(C), sorted(escapable)))
+    notplain = set(probes) - plain - {"\\"}
+    R.check(notplain <= C | {"/"} or notplain <= escapable, "C18.sets", "class control characters", "characters that cannot be class members as written are escapable", where,
+            fail_msg="the characters %s cannot be written in a class as they are and are not all escapable (%s)" % (sorted(notplain), sorted(escapable)))
 
 
 def rule_escape(F, R, M):
@@ -160,3 +182,65 @@ def rule_escape(F, R, M):
         want = "".join(("\\" + c) if c in M else c for c in s)
         R.check(text == want, "C18.escape", "escape(%r)" % s, repr(want), it.where(),
                 fail_msg="escape(%r) = %r, expected %r (a backslash before exactly the meta-characters, every character kept)" % (s, text, want))
+
+
+ROUNDTRIP_EXTRA = ["", "ab", "a/b", "/a", "a/", "/", "a/b/c.d", "**", "a/**/b", "**/a", "*.rs", "$x?", "(?i)a", "(?-i)", "[a-b]", "[!a]", "{a,b}",
+                   "{a,b}/<c:1,2>", "<a:1,>", "a:b", "a,b", "a-b", "a!b", "!", "-", "a b", "\u611b", "\u611b/\u30b0*", "\u015b", "\u017b\u00f3\u0142w",
+                   "\u012a", "\u672c", "\U0001f600", "x\u015b{y}", "zdj\u0119cia/\u017b\u00f3\u0142w/\u015bnieg.png", "?*$:<>()[]{},", ",}{][)(><:$*?",
+                   "a?b*c$d:e<f>g(h)i[j]k{l}m,n"]
+
+
+def rule_roundtrip(F, R, M):
+    """C18.roundtrip: for strings covering every ASCII character, every meta-character in context, path-like texts,
+    pattern-like texts and non-ASCII characters (among them characters whose low byte is the code of a meta-character),
+    `escape` is evaluated from its THIR and the parser (its THIR, nom combinators modelled, sa/nommodel.py) is evaluated
+    on the escaped text: it must accept it and read it as literals and separators only, whose text is the original
+    string.  This decides `the escaped string builds into a glob whose tokens spell exactly that string` for the
+    listed strings however the escape set and the parser's escape alternatives are spelled."""
+    from . import parsecat
+    esc = F.find("escape")
+    it = F.find("token::parse::parse", optional=True)
+    if it is None:
+        R.anchor_missing("C18.roundtrip", "token::parse::parse")
+        return
+    err_item = None
+    for cand in F.items.values():
+        if cand.qname.startswith("token::parse::ParseError") and cand.name == "new":
+            err_item = cand
+    strings = [chr(c) for c in range(0x20, 0x7f) if chr(c) != "\\"]
+    strings += ["a%sb" % c for c in sorted(M)] + ["%s%s" % (c, d) for c in sorted(M) for d in sorted(M) if c + d != "**"]
+    strings += ROUNDTRIP_EXTRA
+    n = 0
+    seen = set()
+    for s in strings:
+        if s in seen or "\\" in s or "//" in s:
+            continue
+        seen.add(s)
+        I = Interp(F)
+        res = strip(tabulate.single(I.explore(lambda: I.call_item(esc, [s]))))
+        text = res.text() if isinstance(res, StrB) else res
+        if not isinstance(text, str):
+            R.fail("C18.roundtrip", "escape(%r)" % s, "escape(%r) could not be evaluated: %r" % (s, res), esc.where())
+            continue
+        ev = parsecat.evaluate(F, it, err_item, text)
+        n += 1
+        problem = None
+        if ev["outcome"] == "unanalysable":
+            problem = "the parser could not be evaluated on the escaped text %r: %s" % (text, ev["why"])
+        elif ev["outcome"] == "reject":
+            problem = "escape(%r) = %r is rejected by the parser: the escaped string does not build" % (s, text)
+        else:
+            toks = ev["tree"][1]
+            spelled = ""
+            for t in toks:
+                if t[0] == "lit":
+                    spelled += t[1]
+                elif t[0] == "sep":
+                    spelled += "/"
+                else:
+                    problem = "escape(%r) = %r is read with a pattern token (%s): the escaped text is not a literal" % (s, text, parsecat.show(ev["tree"]))
+                    break
+            if problem is None and spelled != s:
+                problem = "escape(%r) = %r is read as the literal text %r, not as the string itself" % (s, text, spelled)
+        R.check(problem is None, "C18.roundtrip", "escape+parse(%r)" % s, "reads back as literals and separators spelling the string", esc.where(), fail_msg=problem)
+    R.floor("C18.roundtrip", "strings escaped and parsed", n, 300)
